@@ -218,6 +218,9 @@ def run(ctx):
     def _old_single():
         _single_instance(ctx, fb)
     ctx.guarded('C13-single-instance', d_cache >= 5, _old_single)
+    # registering a factory touches the instance cache for that library only (table: libtables.register_table)
+    from . import libtables as _lt_reg
+    _lt_reg.rule_register(ctx, "C13-single-instance")
 
     return EXPLANATION, NOT_DECIDED
 
